@@ -801,7 +801,8 @@ func (c11) Info() core.Info {
 		Title: "DELETE removes exactly the pairs its WHERE (and LIMIT) selects",
 		Level: "model_checking",
 		Rule: "explicit-state search: states = all stores reachable from the empty store through put/remove/delete statements over keys {a,ab,b,2} x values {1,x} (81 states, breadth-first on the reference map, shortest history kept); transitions = `delete where P [limit]` for every predicate of a pool (point, IN, prefix, half/closed ranges, literal on the left, AND/OR mixes that do and do not qualify for the direct-removal shortcut, value predicates, true, false) x limits {none, 1, 2, (0,0), (1,1), (1,2), (2,1)} x batch sizes {1,2,3} x poll words (first poll Next or Batch, then 0..2 more polls); every transition is executed on the real plan over a clone of the state and compared with the model step: post-state = prior minus the keys `select * where P limit` picks, no pair written, no storage call on later polls, follow-up point reads agree. " +
-			"Non-trivial: the transition deletes a proper non-empty part of a state. Distinct: (state, statement, B, polls).",
+			"Non-trivial: the transition deletes a proper non-empty part of a state. Distinct: (state, statement, B, polls)." +
+			" Faults: for every state, every (quick: a third of the) predicate x limit pairs, row and batch poll, every storage call of the DELETE fails in turn: a statement that then reports success has left the model's post-state.",
 		Assumptions:      []string{"storage with snapshot cursors (DESIGN.md §2)", "every statement builds a fresh plan; the storage has no hidden state (so all histories reduce to all transitions from all reachable states)"},
 		CrashIsViolation: true,
 	}
@@ -1042,7 +1043,8 @@ func (c12) Info() core.Info {
 		Title: "PUT and REMOVE apply exactly the stated writes, once, all-or-nothing",
 		Level: "model_checking",
 		Rule: "explicit-state search over the same 81-state space as C11 (C11 additionally runs DELETE over all 256 accept/reject patterns of 8-pair stores): transitions = long `put` / `remove` lists (4..40 elements with duplicate keys in three patterns) and `put` with every list of 1..3 pairs from a pool of 15 pair expressions (literals, duplicate keys, concatenated and numeric keys, values that read `key`, function calls) plus 3 failing ones at every position, `remove` with every list of 1..3 keys from a pool of 10 (one failing), each under every poll word of length 1..4 over {Next,Batch} (quick: length <= 3 for 3-element lists) at batch sizes {1,32}, plus statically forbidden forms; every transition runs on the real plan over a clone of the state. Oracle: post-state = model (later duplicate wins; value sees its own key); the pairs/keys carried by the mutating calls, in call order, are exactly the evaluated list (each stated write once); no write on evaluation failure; no storage call and no row on later polls; a follow-up `select * where key = k` observes each write; forbidden forms are rejected with an empty call log. " +
-			"Non-trivial: the statement changes the state or fails at evaluation. Distinct: (state, statement, B, polls).",
+			"Non-trivial: the statement changes the state or fails at evaluation. Distinct: (state, statement, B, polls)." +
+			" A division by zero or a distance of vectors of different lengths in any key / value expression fails the statement even if the pair would have been overwritten. Faults: every storage call of a PUT / REMOVE fails in turn under the poll words NN, BN, NBB: success only with the model's post-state, and a poll after the failure neither touches the storage nor returns a row (it may report the same error again).",
 		Assumptions:      []string{"whether writes travel as Put or BatchPut is not prescribed (the property says 'exactly once'), nor whether a pair overwritten by a later pair of the same statement (or a key named twice by REMOVE) reaches the storage more than once: the calls must carry the stated writes' effect and nothing else", "numbers written by PUT are compared as decimal integers only (no float rendering is documented)"},
 		CrashIsViolation: true,
 	}
